@@ -1,1 +1,194 @@
-// harnesses for this module
+// Harnesses over items reachable from the crate root: crc, Counter, byteorder, audio::Frame
+use crate::crc::{Checksum, Crc16, Crc8, CrcReader};
+use crate::verif_env::*;
+
+/// bit-serial CRC, MSB first, zero initial value, no final xor:
+/// the textbook shift register for a polynomial of the given width
+fn ref_crc(poly: u32, width: u32, data: &[u8]) -> u32 {
+    let top = 1u32 << (width - 1);
+    let mask = if width == 32 { u32::MAX } else { (1u32 << width) - 1 };
+    let mut reg: u32 = 0;
+    for byte in data {
+        let mut bit = 0;
+        while bit < 8 {
+            let inbit = ((*byte >> (7 - bit)) & 1) as u32;
+            let fb = ((reg >> (width - 1)) & 1) ^ inbit;
+            reg = (reg << 1) & mask;
+            if fb == 1 {
+                reg ^= poly & mask;
+            }
+            bit += 1;
+        }
+    }
+    let _ = top;
+    reg
+}
+
+// @harness prop=C02,C05 tier=quick expect=pass timeout=300
+// @units crc::Crc8::update
+// @bound every 2-byte message; a 1-byte prefix reaches each of the 256 register states, so this decides update() for every (state, byte)
+// @oracle table-driven CRC-8 == bit-serial shift register for x^8 + x^2 + x + 1, MSB first, zero init
+#[kani::proof]
+#[kani::unwind(9)]
+fn c02_crc8_matches_polynomial() {
+    let m: [u8; 2] = kani::any();
+    let c: u8 = Crc8::default().update(m[0]).update(m[1]).into();
+    assert!(u32::from(c) == ref_crc(0x07, 8, &m));
+    // every register state is reached after one byte
+    let s: u8 = kani::any();
+    let s1: u8 = Crc8::default().update(s).into();
+    kani::cover!(s1 == 0xA5);
+}
+
+// @harness prop=C02,C05 tier=quick expect=pass timeout=600
+// @units crc::Crc16::update
+// @bound every 3-byte message; a 2-byte prefix reaches each of the 65536 register states, so this decides update() for every (state, byte)
+// @oracle table-driven CRC-16 == bit-serial shift register for x^16 + x^15 + x^2 + 1 (0x8005), MSB first, zero init
+#[kani::proof]
+#[kani::unwind(9)]
+fn c02_crc16_matches_polynomial() {
+    let m: [u8; 3] = kani::any();
+    let c: u16 = Crc16::default().update(m[0]).update(m[1]).update(m[2]).into();
+    assert!(u32::from(c) == ref_crc(0x8005, 16, &m));
+}
+
+// @harness prop=C05 tier=quick expect=pass timeout=600
+// @units crc::Crc16::update crc::Crc16::valid
+// @bound frames of exactly 12 bytes (any content), error pattern = any non-zero burst confined to 16 consecutive bits at any byte-aligned-or-not position (covers every single-bit flip)
+// @oracle the CRC-16 register after the damaged frame differs from the register after the original: damage that keeps the byte span is never silently accepted
+#[kani::proof]
+#[kani::unwind(14)]
+fn c05_crc16_detects_bursts_12() {
+    let m: [u8; 12] = kani::any();
+    let burst: u16 = kani::any();
+    kani::assume(burst != 0);
+    let pos: usize = kani::any(); // bit offset of the burst window
+    kani::assume(pos <= 12 * 8 - 16);
+    let mut d = m;
+    // xor the 16-bit window in, MSB first, possibly straddling three bytes
+    let byte = pos / 8;
+    let sh = (pos % 8) as u32;
+    let w: u32 = (u32::from(burst)) << (8 - sh); // 24-bit window
+    d[byte] ^= (w >> 16) as u8;
+    d[byte + 1] ^= (w >> 8) as u8;
+    if byte + 2 < 12 {
+        d[byte + 2] ^= w as u8;
+    } else {
+        kani::assume(w as u8 == 0);
+    }
+    let mut a = Crc16::default();
+    let mut b = Crc16::default();
+    let mut i = 0;
+    while i < 12 {
+        a = a.update(m[i]);
+        b = b.update(d[i]);
+        i += 1;
+    }
+    let (a, b): (u16, u16) = (a.into(), b.into());
+    assert!(a != b);
+}
+
+// @harness prop=C05 tier=quick expect=pass timeout=600
+// @units crc::Crc8::update crc::Crc8::valid
+// @bound headers of exactly 8 bytes (any content), any non-zero burst confined to 8 consecutive bits (covers every single-bit flip)
+// @oracle the CRC-8 register changes
+#[kani::proof]
+#[kani::unwind(10)]
+fn c05_crc8_detects_bursts_8() {
+    let m: [u8; 8] = kani::any();
+    let burst: u8 = kani::any();
+    kani::assume(burst != 0);
+    let pos: usize = kani::any();
+    kani::assume(pos <= 8 * 8 - 8);
+    let mut d = m;
+    let byte = pos / 8;
+    let sh = (pos % 8) as u32;
+    let w: u16 = (u16::from(burst)) << (8 - sh);
+    d[byte] ^= (w >> 8) as u8;
+    if byte + 1 < 8 {
+        d[byte + 1] ^= w as u8;
+    } else {
+        kani::assume(w as u8 == 0);
+    }
+    let mut a = Crc8::default();
+    let mut b = Crc8::default();
+    let mut i = 0;
+    while i < 8 {
+        a = a.update(m[i]);
+        b = b.update(d[i]);
+        i += 1;
+    }
+    let (a, b): (u8, u8) = (a.into(), b.into());
+    assert!(a != b);
+}
+
+/// A `Read` that hands out its bytes in arbitrary non-empty fragments
+/// (contract of std::io::Read: 0 < n <= buf.len() unless at end of data)
+pub struct ChunkRead<const N: usize> {
+    pub data: [u8; N],
+    pub pos: usize,
+    pub calls: usize,
+}
+
+impl<const N: usize> std::io::Read for ChunkRead<N> {
+    fn read(&mut self, buf: &mut [u8]) -> std::io::Result<usize> {
+        self.calls += 1;
+        let left = N - self.pos;
+        if left == 0 || buf.is_empty() {
+            return Ok(0);
+        }
+        let max = if buf.len() < left { buf.len() } else { left };
+        let n: usize = kani::any();
+        kani::assume(n >= 1 && n <= max);
+        let mut i = 0;
+        while i < n {
+            buf[i] = self.data[self.pos + i];
+            i += 1;
+        }
+        self.pos += n;
+        Ok(n)
+    }
+}
+
+// @harness prop=C07 tier=quick expect=pass timeout=600
+// @units crc::CrcReader::read Counter::read
+// @bound 4 source bytes, delivered in any fragmentation (every read returns an arbitrary non-empty prefix of what is left, into a caller buffer of arbitrary size 1..=4), at most 6 read calls
+// @oracle bytes delivered == source bytes in order; checksum == CRC-16 of exactly the delivered bytes; Counter.count == number delivered; all independent of the fragmentation
+#[kani::proof]
+#[kani::unwind(10)]
+fn c07_crc_reader_counter_fragmentation() {
+    use std::io::Read;
+    let data: [u8; 4] = kani::any();
+    let src = ChunkRead::<4> { data, pos: 0, calls: 0 };
+    let mut counter = crate::Counter::new(src);
+    let mut got = [0u8; 4];
+    let mut total = 0usize;
+    {
+        let mut crc: CrcReader<_, Crc16> = CrcReader::new(&mut counter);
+        let mut rounds = 0;
+        while rounds < 6 && total < 4 {
+            let want: usize = kani::any();
+            kani::assume(want >= 1 && want <= 4 - total);
+            let mut tmp = [0u8; 4];
+            let n = crc.read(&mut tmp[..want]).unwrap();
+            assert!(n >= 1 && n <= want);
+            let mut i = 0;
+            while i < n {
+                got[total + i] = tmp[i];
+                i += 1;
+            }
+            total += n;
+            rounds += 1;
+        }
+        let sum: u16 = crc.into_checksum().into();
+        assert!(u32::from(sum) == ref_crc(0x8005, 16, &data[..total]));
+    }
+    assert!(counter.count == total as u64);
+    let mut i = 0;
+    while i < total {
+        assert!(got[i] == data[i]);
+        i += 1;
+    }
+    kani::cover!(total == 4 && counter.stream().calls == 4);
+    kani::cover!(total == 4 && counter.stream().calls == 1);
+}
